@@ -19,7 +19,7 @@ pub const META: PropMeta = PropMeta {
     id: "C39",
     quick_runs: 40_000,
     thorough_runs: 40_000_000,
-    rule: "each run picks a program (collect_quorum / collect_quorum_with_response with (min,max) in {(1,1),(2,2),(2,3),(3,3),(1,3)} over a totally ordered response stream, (2,3)/(2,2) over an unordered one; join_responses), draws a response sequence from the run seed (<=3 keys, at most max responses per key, Ok/Err mix, uniquely numbered payloads, split into 1-3 phases with or without quiescence barriers) and 4096 decision bytes for CompiledSim::fuzz_repro. Distinct = distinct hash of (program, workload, decision log); non-trivial = at least one key reached its quorum (or one response was joined) AND the schedule ran more than one tick.",
+    rule: "each run picks a program (collect_quorum / collect_quorum_with_response with (min,max) in {(1,1),(2,2),(2,3),(3,3),(1,3),(2,4)} over a totally ordered response stream, (2,3)/(2,2) over an unordered one; join_responses with acknowledged metadata, and with metadata and responses racing, judged by the tick in which the decision log shows each was released), draws a response sequence from the run seed (<=3 keys, at most max responses per key, Ok/Err mix, uniquely numbered payloads, split into 1-3 phases with or without quiescence barriers) and 4096 decision bytes for CompiledSim::fuzz_repro. Distinct = distinct hash of (program, workload, decision log); non-trivial = at least one key reached its quorum (or one response was joined) AND the schedule ran more than one tick.",
     time_unit: "scheduled ticks",
     real: &[
         "hydro_std::quorum::{collect_quorum, collect_quorum_with_response}, hydro_std::request_response::join_responses (sliced! bodies with use::state_null carry-over, anti_join / filter_not_in / join)",
@@ -31,7 +31,7 @@ pub const META: PropMeta = PropMeta {
         "with barriers (sim::quiesce) the oracle is per phase: a key is reported in exactly the phase in which its min-th success was sent; without barriers only the final sets are compared",
         "collect_quorum_with_response: demanded is that a reported key emits only genuine, distinct success responses of that key, at least min of them, all in the phase in which the quorum was reached, and nothing afterwards (how many of the later successes ride along is batching dependent and not asserted)",
     ],
-    required_probes: &["quorum_reached", "quorum_not_reached_at_max", "error_passed_through", "quorum_state_carried_across_ticks", "join_matched", "join_unmatched_response_dropped", "barrier_phase_checked"],
+    required_probes: &["quorum_reached", "quorum_not_reached_at_max", "error_passed_through", "quorum_state_carried_across_ticks", "join_matched", "join_unmatched_response_dropped", "barrier_phase_checked", "join_same_tick", "join_response_before_metadata"],
 };
 
 #[cfg(stageleft_runtime)]
@@ -46,7 +46,7 @@ struct QCfg {
     max: usize,
 }
 #[cfg(stageleft_runtime)]
-const QCFGS: [QCfg; 13] = [
+const QCFGS: [QCfg; 15] = [
     QCfg { with_resp: false, noorder: false, min: 1, max: 1 },
     QCfg { with_resp: false, noorder: false, min: 2, max: 2 },
     QCfg { with_resp: false, noorder: false, min: 2, max: 3 },
@@ -60,12 +60,16 @@ const QCFGS: [QCfg; 13] = [
     QCfg { with_resp: false, noorder: true, min: 2, max: 3 },
     QCfg { with_resp: true, noorder: true, min: 2, max: 3 },
     QCfg { with_resp: true, noorder: true, min: 2, max: 2 },
+    // max - min >= min: a key may collect min errors and still reach its quorum afterwards
+    QCfg { with_resp: false, noorder: false, min: 2, max: 4 },
+    QCfg { with_resp: true, noorder: false, min: 2, max: 4 },
 ];
 #[cfg(stageleft_runtime)]
-const QNAMES: [&str; 13] = [
+const QNAMES: [&str; 15] = [
     "quorum_1_1", "quorum_2_2", "quorum_2_3", "quorum_3_3", "quorum_1_3",
     "quorum_resp_1_1", "quorum_resp_2_2", "quorum_resp_2_3", "quorum_resp_3_3", "quorum_resp_1_3",
     "quorum_noorder_2_3", "quorum_resp_noorder_2_3", "quorum_resp_noorder_2_2",
+    "quorum_2_4", "quorum_resp_2_4",
 ];
 
 #[cfg(stageleft_runtime)]
@@ -532,12 +536,92 @@ fn run_j(f: &JFlow, inp: &RunIn<'_>) -> RunOut {
     out
 }
 
+/// Metadata and responses are sent without waiting for the acknowledgement, so a response may be
+/// released into an earlier tick than, the same tick as, or a later tick than its metadata. The
+/// decision log tells which: per the documented contract ("the metadata must be generated in the
+/// same or a previous tick than the response") exactly the responses released in the same or a
+/// later tick must be joined.
+#[cfg(stageleft_runtime)]
+fn run_j_racing(f: &JFlow, inp: &RunIn<'_>) -> RunOut {
+    let name = "join_responses_racing";
+    let mut r = knob_rng(inp.run_seed);
+    let nkeys = 1 + below(&mut r, 4) as u8;
+    // metadata values < 1000, response payloads >= 1000 (told apart in the log)
+    let metas: Vec<(u8, u32)> = (0..nkeys).map(|k| (k, 500 + k as u32)).collect();
+    let mut resps: Vec<(u8, u32)> = (0..nkeys).filter(|_| below(&mut r, 5) != 0).map(|k| (k, 1000 + k as u32)).collect();
+    for i in (1..resps.len()).rev() {
+        let j = below(&mut r, i as u64 + 1) as usize;
+        resps.swap(i, j);
+    }
+    let joined = Mutex::new(Vec::<(u8, (u32, u32))>::new());
+    let jr = &joined;
+    let (mr, rr) = (&metas, &resps);
+    let (v, log) = run_instance(&f.compiled, inp.bytes, async || {
+        f.meta_tx.send_many(mr.clone());
+        f.resp_tx.send_many(rr.clone());
+        hydro_lang::sim::quiesce().await;
+        let _acks: Vec<(u8, u32)> = f.ack_rx.collect().await;
+        *jr.lock().unwrap() = f.joined_rx.collect_sorted().await;
+    });
+    let joined = joined.into_inner().unwrap_or_else(|e| e.into_inner());
+    let mut out = RunOut::default();
+    let pl = parse_log(&log);
+    out.sim_time = pl.ticks.len() as u64;
+    out.sched_hash = hash_str(hash_str(FNV0, &log), &format!("{metas:?}{resps:?}"));
+    out.log_hash = hash_str(out.sched_hash, &format!("{joined:?}{v:?}"));
+    if inp.verbose {
+        out.text.push(format!("{name}: metadata {metas:?} responses {resps:?} (no ack awaited)"));
+        out.text.push(format!("verdict: {} joined {joined:?}", v.text()));
+        out.text.extend(log.lines().filter(|l| !l.trim().is_empty()).map(|l| format!("  {l}")));
+    }
+    if !gate(name, &v, &mut out) {
+        return out;
+    }
+    // in which tick was each pair released?
+    let mut meta_tick: BTreeMap<u8, usize> = BTreeMap::new();
+    let mut resp_tick: BTreeMap<u8, usize> = BTreeMap::new();
+    for (t, rels) in pl.ticks.iter().enumerate() {
+        for rel in rels {
+            let mut rest = rel.note.as_str();
+            while let Some(p) = rest.find('(') {
+                rest = &rest[p + 1..];
+                let Some(q) = rest.find(')') else { break };
+                let mut it = rest[..q].split(',').map(|x| x.trim().parse::<u32>());
+                if let (Some(Ok(k)), Some(Ok(val))) = (it.next(), it.next()) {
+                    if val < 1000 { meta_tick.insert(k as u8, t); } else { resp_tick.insert(k as u8, t); }
+                }
+                rest = &rest[q..];
+            }
+        }
+    }
+    if metas.iter().any(|(k, _)| !meta_tick.contains_key(k)) || resps.iter().any(|(k, _)| !resp_tick.contains_key(k)) {
+        // the log did not show every release (should not happen with <= 4 items): not judged
+        out.discarded = true;
+        return out;
+    }
+    let mut expect: Vec<(u8, (u32, u32))> = resps.iter().filter(|(k, _)| resp_tick[k] >= meta_tick[k]).map(|(k, p)| (*k, (500 + *k as u32, *p))).collect();
+    expect.sort();
+    if expect != joined {
+        out.fail(format!("join_mismatch/{name}"), format!("metadata released in ticks {meta_tick:?}, responses in ticks {resp_tick:?}: expected joined {expect:?}, observed {joined:?}"));
+        return out;
+    }
+    if resps.iter().any(|(k, _)| resp_tick[k] == meta_tick[k]) {
+        out.probe("join_same_tick");
+    }
+    if resps.iter().any(|(k, _)| resp_tick[k] < meta_tick[k]) {
+        out.probe("join_response_before_metadata");
+    }
+    out.nontrivial = !expect.is_empty() && pl.ticks.len() > 1;
+    out
+}
+
 #[cfg(stageleft_runtime)]
 #[test]
 fn e2e_c39() {
     let Some(cfg) = cfg_for("C39") else { return };
     let qflows: Vec<Lazy<QFlow>> = QCFGS.iter().map(|c| { let c = *c; Lazy::new(move || build_q(c)) }).collect();
     let jflow: Lazy<JFlow> = Lazy::new(build_j);
+    let jflow2: Lazy<JFlow> = Lazy::new(build_j);
     let mut scenarios: Vec<Scenario<'_>> = qflows
         .iter()
         .zip(QNAMES)
@@ -545,5 +629,7 @@ fn e2e_c39() {
         .collect();
     let jf = &jflow;
     scenarios.push(Scenario { name: "join_responses", weight: 2, run: Box::new(move |inp: &RunIn<'_>| run_j(jf.get(), inp)) });
+    let jf2 = &jflow2;
+    scenarios.push(Scenario { name: "join_responses_racing", weight: 2, run: Box::new(move |inp: &RunIn<'_>| run_j_racing(jf2.get(), inp)) });
     drive(&cfg, &META, scenarios, None);
 }
